@@ -70,18 +70,24 @@ Print Assumptions C11_topsort_respects_collected_graph_partial.
 
 (* THE COMPLETENESS LINK.  Outside the finding classes dependency collection succeeds (no fuel
    exhaustion, no unwrap/expect panic) and the collected graph is the reference relation, row by
-   row: the row of a struct, alias or const holds exactly the positions of the items it refers to;
-   an enum refers to nothing and its row is empty or starts with its own position (which makes
-   toposort_impl skip the row) *)
+   row: the row of EVERY item - struct, enum (tuple payloads and struct-variant fields), alias,
+   const - holds exactly the positions of the items it refers to *)
 Theorem C11_collected_graph_is_reference_graph :
   forall things : list ritem, known_C11 things = None ->
     exists dag, build_dag things = Ok dag /\
       forall i a row, nth_error things i = Some a -> nth_error dag i = Some row ->
-        if Proofs.C11Link.is_enum a
-        then (forall b, In b things -> refers a b = false) /\ (row = [] \/ exists rest, row = i :: rest)
-        else forall j b, nth_error things j = Some b -> (In j row <-> refers a b = true).
+        forall j b, nth_error things j = Some b -> (In j row <-> refers a b = true).
 Proof. exact Proofs.C11Link.collected_rows_are_references. Qed.
 Print Assumptions C11_collected_graph_is_reference_graph.
+
+(* no row of the graph topsort hands to toposort_impl contains its own position (cyclic references
+   included): an enum no longer produces a row that starts with its own index *)
+Theorem C11_collected_rows_irreflexive :
+  forall things : list ritem, alias_generic_shadows things = false -> has_dup_names things = false ->
+    exists dag, build_dag things = Ok dag /\
+      forall i row, nth_error dag i = Some row -> ~ In i row.
+Proof. exact Proofs.C11Link.collected_rows_irreflexive. Qed.
+Print Assumptions C11_collected_rows_irreflexive.
 
 (* THE PROPERTY'S ORDERING HALF: for every item list outside the finding classes whose reference
    relation is acyclic, topsort succeeds, emits a permutation of the items, and no emitted
@@ -115,8 +121,10 @@ Theorem C11_topsort_good :
 Proof. exact Proofs.C11Link.topsort_good. Qed.
 Print Assumptions C11_topsort_good.
 
-(* the cycle `return` fires on the first entry of a row that starts with its own index: such rows
-   (the ones algebraic enums produce) are ignored *)
+(* a general fact about toposort_impl, not used by the theorems above any more: the cycle `return`
+   fires on the first entry of a row that starts with its own index, such rows are ignored (before the
+   repair of get_enum_dependencies every algebraic enum produced one; C11_collected_rows_irreflexive
+   says topsort's own graph has none now) *)
 Theorem C11_toposort_impl_ignores_self_started_rows :
   forall g : graph, toposort_impl g = toposort_impl (Proofs.C11Link.clean g).
 Proof. exact Proofs.C11Link.toposort_impl_clean. Qed.
@@ -155,17 +163,29 @@ Theorem C11_duplicate_names_refuted :
 Proof. exact Proofs.C11Link.C11_duplicate_names_refuted. Qed.
 Print Assumptions C11_duplicate_names_refuted.
 
-(* enum E { V { f: B } }  struct B {} *)
-Theorem C11_variant_fields_refuted :
-  Proofs.C11Link.c11_refutes "C11-variant-fields" [w_enum "E" [VAnon [w_field (w_s "B")] w_vsh]; w_struct "B" [] []].
-Proof. exact Proofs.C11Link.C11_variant_fields_refuted. Qed.
-Print Assumptions C11_variant_fields_refuted.
+(* regression pins of the two classes repaired in get_enum_dependencies (former `_refuted` witnesses).
+   c11_pinned_ok w := known_C11 w = None /\ acyclic w = true /\ (some item of w refers to another) /\
+   exists out, topsort w = Ok out /\ topo_ok out = true *)
 
-(* enum E { V(B) }  struct B {} *)
-Theorem C11_enum_self_edge_refuted :
-  Proofs.C11Link.c11_refutes "C11-enum-self-edge" [w_enum "E" [VTuple (w_s "B") w_vsh]; w_struct "B" [] []].
-Proof. exact Proofs.C11Link.C11_enum_self_edge_refuted. Qed.
-Print Assumptions C11_enum_self_edge_refuted.
+(* enum E { V { f: B } }  struct B {}: formerly C11-variant-fields *)
+Theorem C11_variant_fields_fixed :
+  Proofs.C11Link.c11_pinned_ok [w_enum "E" [VAnon [w_field (w_s "B")] w_vsh]; w_struct "B" [] []].
+Proof. exact Proofs.C11Link.C11_variant_fields_fixed. Qed.
+Print Assumptions C11_variant_fields_fixed.
+
+(* enum E { V(B) }  struct B {}: formerly C11-enum-self-edge *)
+Theorem C11_enum_self_edge_fixed :
+  Proofs.C11Link.c11_pinned_ok [w_enum "E" [VTuple (w_s "B") w_vsh]; w_struct "B" [] []].
+Proof. exact Proofs.C11Link.C11_enum_self_edge_fixed. Qed.
+Print Assumptions C11_enum_self_edge_fixed.
+
+(* enum A { V(B) }  enum B { W { f: Vec<C> }, U }  struct C {}: a chain through both variant shapes *)
+Theorem C11_enum_chain_fixed :
+  Proofs.C11Link.c11_pinned_ok
+    [w_enum "A" [VTuple (w_s "B") w_vsh]; w_enum "B" [VAnon [w_field (RVec (w_s "C"))] w_vsh; VUnit w_vsh];
+     w_struct "C" [] []].
+Proof. exact Proofs.C11Link.C11_enum_chain_fixed. Qed.
+Print Assumptions C11_enum_chain_fixed.
 
 (* struct A { f: Unknown<B> }  struct B {} *)
 Theorem C11_generic_arg_depth_refuted :
